@@ -248,6 +248,10 @@ def _body_paths(check):
     report(check, res_, ("DRV-SNAPSHOT", "TS-FRESH-MAIN", "DRV-RESET", "DRV-FORWARD", "DRV-CALLER-PURE"))
     from .c07 import field_deepcopy
     check.guarded("FIELD-DEEPCOPY", "field.fdata", lambda: field_deepcopy(check))
+    # implicit integrators re-use the Jacobian only for operators that ARE linear: a limited reconstruction that declares itself
+    # linear freezes the Jacobian of the first step (order and stability are lost) -- same obligations as C06 JAC-GUARD / JAC-LINEAR
+    from . import c06
+    check.guarded("JAC-GUARD", "integration.implicitmodel.calc_jacobian", lambda: c06.jac_guard(check, proj))
     from .c10 import enclose
     n0 = len(check.obs)
     check.guarded("WAVE-ENCLOSE", "numflux", lambda: enclose(check, proj))
